@@ -19,6 +19,13 @@ runs, not modelled. `d : Defs` is ANY table
 of typedefs, enums and struct-likes (one table for the whole multi-file program, names file
 qualified); `WT d n t v` = `v` is a well-typed value of declared type `t` in canonical form
 (the state an emitted Go struct can be in), nesting depth ≤ `n`. Theorems are for all `d`, `n`.
+
+IDL DEFAULT VALUES (`Field.dflt`) are part of the model as the generator treats them (header of
+`FV.Model.Thrift`): "set" is what the emitted `IsSet<F>()` says — `isSetIn sd fs f`: listed and, for
+a non-pointer optional field with a default, different from it. Where a struct has no such field,
+`isSetIn` is "listed" (`c02_set_is_listed_without_default`), which is how these statements read for
+programs without defaults. `c02_default_optional_iff_differs`, `c02_required_default_always_written`,
+`c02_default_reproduced`, `c02_read_state` are the statements about defaults themselves.
 -/
 import FV.Model.Thrift
 import FV.Proofs.Thrift
@@ -36,7 +43,8 @@ theorem c02_roundtrip (d : Defs) (n : Nat) (t : Ty) (v : Val) (es rest : List Ev
   roundtrip d n t v es rest hwt henc
 
 /-- What `Write` emits for a struct-like: StructBegin(name), one chunk per declared field in
-declaration order, FieldStop, StructEnd; the chunk of a field that is set, or that is not
+declaration order, FieldStop, StructEnd; the chunk of a field that is set (`IsSet<F>()`: listed — and,
+for a non-pointer optional field with a default, different from that default), or that is not
 optional, is `FieldBegin(name, wire type of the RESOLVED declared type, id) … FieldEnd`; the
 chunk of an unset optional (or union) field is empty. -/
 theorem c02_write_declared (d : Defs) (n : Nat) (t : Ty) (nm : String) (sd : StructDef)
@@ -45,66 +53,201 @@ theorem c02_write_declared (d : Defs) (n : Nat) (t : Ty) (nm : String) (sd : Str
     (henc : encV d (n + 1) t (.struct fs) = .ok es) :
     ∃ cs : List (List Event), es = [.sb sd.name] ++ cs.flatten ++ [.fs, .se] ∧
       All2 (fun (f : Field) (c : List Event) =>
-        ((lookupVal fs f.id).isSome ∨ ¬ (f.req = .optional ∨ sd.kind = .union) →
+        (isSetIn sd fs f = true ∨ ¬ (f.req = .optional ∨ sd.kind = .union) →
             ∃ body, c = [.fb f.name (wireOf d f.ty) f.id] ++ body ++ [.fe]) ∧
-        ((lookupVal fs f.id).isNone ∧ (f.req = .optional ∨ sd.kind = .union) → c = [])) sd.fields cs := by
-  unfold encV at henc
-  simp only [hres, hsd] at henc
-  split at henc
-  · cases henc
-  · split at henc
+        (isSetIn sd fs f = false ∧ (f.req = .optional ∨ sd.kind = .union) → c = [])) sd.fields cs := by
+  obtain ⟨cs, hes, hall⟩ := encV_struct_chunks d n t nm sd fs es hres hsd henc
+  refine ⟨cs, hes, All2.imp ?_ hall⟩
+  intro f c hx
+  simp only [fieldEvents] at hx
+  unfold isSetIn
+  cases hl : lookupVal fs f.id with
+  | some x =>
+    simp only [hl] at hx ⊢
+    by_cases hs : isSetVal sd f x = true
+    · rw [if_pos hs] at hx
+      refine ⟨fun _ => ?_, fun h => absurd hs (by rw [h.1]; simp)⟩
+      split at hx
+      · cases hx; exact ⟨_, rfl⟩
+      · cases hx
+      · cases hx
+    · rw [if_neg hs] at hx
+      cases hx
+      refine ⟨fun h => ?_, fun _ => rfl⟩
+      rcases h with h | h
+      · exact absurd h hs
+      · exact absurd (isSetVal_of_not_optional sd f x h) hs
+  | none =>
+    simp only [hl] at hx ⊢
+    by_cases hopt : f.req = .optional ∨ sd.kind = .union
+    · rw [if_pos hopt] at hx
+      cases hx
+      refine ⟨fun h => ?_, fun _ => rfl⟩
+      rcases h with h | h
+      · cases h
+      · exact absurd hopt h
+    · rw [if_neg hopt] at hx
+      refine ⟨fun _ => ?_, fun h => absurd h.2 hopt⟩
+      split at hx
+      · split at hx
+        · cases hx; exact ⟨_, rfl⟩
+        · cases hx
+        · cases hx
+      · split at hx
+        · cases hx; exact ⟨_, rfl⟩
+        · cases hx
+
+/-- Without a compared default (`cmpDflt`: the field is not optional, or has no default, or a default of
+container type) a field is set exactly when the value lists it. -/
+theorem c02_set_is_listed_without_default (sd : StructDef) (fs : List (Int × Val)) (f : Field)
+    (h : cmpDflt sd f = none) : isSetIn sd fs f = (lookupVal fs f.id).isSome := by
+  unfold isSetIn isSetVal
+  rw [h]
+  cases lookupVal fs f.id <;> rfl
+
+/-- DEFAULTS, optional: a field that is optional (or a union's) and has a default `dv` of base / enum /
+string / binary type is a non-pointer Go field holding `x` = its listed value, or `dv` when the value
+does not list it. It is on the wire iff `x ≠ dv`, and then it carries `x`. -/
+theorem c02_default_optional_iff_differs (d : Defs) (n : Nat) (t : Ty) (nm : String) (sd : StructDef)
+    (fs : List (Int × Val)) (es : List Event)
+    (hres : resolve d t = .struct nm) (hsd : lookupStruct d nm = some sd)
+    (henc : encV d (n + 1) t (.struct fs) = .ok es) :
+    ∃ cs : List (List Event), es = [.sb sd.name] ++ cs.flatten ++ [.fs, .se] ∧
+      All2 (fun (f : Field) (c : List Event) =>
+        ∀ dv, (f.req = .optional ∨ sd.kind = .union) → f.dflt = some dv → dv.scalar = true →
+          (c ≠ [] ↔ (lookupVal fs f.id).getD dv ≠ dv) ∧
+          ((lookupVal fs f.id).getD dv ≠ dv → ∃ body, encV d n f.ty ((lookupVal fs f.id).getD dv) = .ok body ∧
+            c = [.fb f.name (wireOf d f.ty) f.id] ++ body ++ [.fe])) sd.fields cs := by
+  obtain ⟨cs, hes, hall⟩ := encV_struct_chunks d n t nm sd fs es hres hsd henc
+  refine ⟨cs, hes, All2.imp ?_ hall⟩
+  intro f c hx dv hopt hd hsc
+  simp only [fieldEvents] at hx
+  cases hl : lookupVal fs f.id with
+  | none =>
+    simp only [hl, if_pos hopt] at hx
+    cases hx
+    simp
+  | some x =>
+    simp only [hl] at hx
+    simp only [Option.getD_some]
+    have hiff := isSetVal_default sd f x dv hopt hd hsc
+    by_cases hs : isSetVal sd f x = true
+    · rw [if_pos hs] at hx
+      have hne := hiff.mp hs
+      split at hx
+      · rename_i body hbody
+        cases hx
+        exact ⟨⟨fun _ => hne, fun _ => by simp⟩, fun _ => ⟨body, hbody, rfl⟩⟩
+      · cases hx
+      · cases hx
+    · rw [if_neg hs] at hx
+      cases hx
+      have heq : ¬ x ≠ dv := fun h => hs (hiff.mpr h)
+      exact ⟨⟨fun h => absurd rfl h, fun h => absurd h heq⟩, fun h => absurd h heq⟩
+
+/-- DEFAULTS, required / default requiredness: a field that is not optional and has a default `dv` is
+ALWAYS written, whatever the value: it carries the listed value, or `dv` (the constructor's default)
+when the value does not list it. -/
+theorem c02_required_default_always_written (d : Defs) (n : Nat) (t : Ty) (nm : String) (sd : StructDef)
+    (fs : List (Int × Val)) (es : List Event)
+    (hres : resolve d t = .struct nm) (hsd : lookupStruct d nm = some sd)
+    (henc : encV d (n + 1) t (.struct fs) = .ok es) :
+    ∃ cs : List (List Event), es = [.sb sd.name] ++ cs.flatten ++ [.fs, .se] ∧
+      All2 (fun (f : Field) (c : List Event) =>
+        ∀ dv, ¬ (f.req = .optional ∨ sd.kind = .union) → f.dflt = some dv →
+          ∃ body, encV d n f.ty ((lookupVal fs f.id).getD dv) = .ok body ∧
+            c = [.fb f.name (wireOf d f.ty) f.id] ++ body ++ [.fe]) sd.fields cs := by
+  obtain ⟨cs, hes, hall⟩ := encV_struct_chunks d n t nm sd fs es hres hsd henc
+  refine ⟨cs, hes, All2.imp ?_ hall⟩
+  intro f c hx dv hopt hd
+  simp only [fieldEvents] at hx
+  cases hl : lookupVal fs f.id with
+  | none =>
+    simp only [hl, if_neg hopt, hd] at hx
+    simp only [Option.getD_none]
+    split at hx
     · rename_i body hbody
-      cases henc
-      obtain ⟨cs, hall, rfl⟩ := concatRes_map_ok _ _ _ hbody
-      refine ⟨cs, rfl, ?_⟩
-      clear hbody
-      generalize sd.fields = fl at hall ⊢
-      induction hall with
-      | nil => exact .nil
-      | @cons f c fl cs' hx _ ih =>
-        refine .cons ⟨?_, ?_⟩ ih
-        · intro hp
-          simp only [fieldEvents] at hx
-          split at hx
-          · split at hx
-            · cases hx; exact ⟨_, rfl⟩
-            · cases hx
-            · cases hx
-          · rename_i hnone
-            split at hx
-            · rename_i hopt
-              rcases hp with hp | hp
-              · rw [hnone] at hp; cases hp
-              · exact absurd hopt hp
-            · split at hx
-              · cases hx; exact ⟨_, rfl⟩
-              · cases hx
-        · intro ⟨hn, hopt⟩
-          simp only [fieldEvents] at hx
-          split at hx
-          · rename_i x hsome; rw [hsome] at hn; cases hn
-          · rw [if_pos hopt] at hx; cases hx; rfl
-    · cases henc
-    · cases henc
+      cases hx; exact ⟨body, hbody, rfl⟩
+    · cases hx
+    · cases hx
+  | some x =>
+    simp only [hl, isSetVal_of_not_optional sd f x hopt, if_true] at hx
+    simp only [Option.getD_some]
+    split at hx
+    · rename_i body hbody
+      cases hx; exact ⟨body, hbody, rfl⟩
+    · cases hx
+    · cases hx
+
+/-- DEFAULTS reproduced by the reader (schema evolution): a value written by the emitted `Write` of a
+struct definition `sdw`, read by the emitted `Read` of a definition `sdr` declaring the same fields and
+more (none of the extra ones required) — so the stream OMITS every extra field `g`: the read succeeds,
+consumes exactly the encoding, the common fields keep their values, and `g` is in the state the
+constructor `New<T>()` gave it: a required/default-requiredness `g` holds its default, an optional `g`
+is unset, and in both cases `Get<G>()` returns the declared default. `tr`, `rest` are arbitrary, so
+this is every nested read too (a struct inside a struct, list, set or map is read by the same code). -/
+theorem c02_default_reproduced (d : Defs) (n : Nat) (tw tr : Ty) (nw nr : String) (sdw sdr : StructDef)
+    (fs : List (Int × Val)) (es rest : List Event)
+    (hrw : resolve d tw = .struct nw) (hsw : lookupStruct d nw = some sdw)
+    (hrr : resolve d tr = .struct nr) (hsr : lookupStruct d nr = some sdr)
+    (hkind : sdr.kind = sdw.kind) (hnu : sdw.kind ≠ .union)
+    (hsub : ∀ f ∈ sdw.fields, f ∈ sdr.fields) (hndr : (sdr.fields.map (·.id)).Nodup)
+    (hreqr : ∀ f ∈ sdr.fields, f.req = .required → f ∈ sdw.fields)
+    (hwt : WT d (n + 1) tw (.struct fs)) (henc : encV d (n + 1) tw (.struct fs) = .ok es) :
+    decV d (n + 1) tr (es ++ rest) = .ok (.struct (normFields sdr fs), rest) ∧
+    (∀ f ∈ sdw.fields, lookupVal (normFields sdr fs) f.id = lookupVal fs f.id) ∧
+    (∀ g ∈ sdr.fields, g.id ∉ sdw.fields.map (·.id) →
+       lookupVal (normFields sdr fs) g.id = (if g.req = .optional then none else g.dflt) ∧
+       getField (normFields sdr fs) g = g.dflt) :=
+  default_reproduced d n tw tr nw nr sdw sdr fs es rest hrw hsw hrr hsr hkind hnu hsub hndr hreqr hwt henc
+
+/-- Whatever arrives, the state `Read` leaves is the constructor state updated by the fields that
+arrived and normalised by `IsSet<F>()`: a field of the result is listed iff it arrived set
+(`readState`: an optional non-pointer field that arrived WITH its default value is unset; a
+non-optional field that did not arrive holds its default). -/
+theorem c02_read_state (d : Defs) (n : Nat) (t : Ty) (nm : String) (sd : StructDef)
+    (es r : List Event) (v : Val) (hres : resolve d t = .struct nm) (hsd : lookupStruct d nm = some sd)
+    (hnd : (sd.fields.map (·.id)).Nodup) (hdec : decV d (n + 1) t es = .ok (v, r)) :
+    ∃ acc fs', v = .struct fs' ∧ ∀ f ∈ sd.fields, lookupVal fs' f.id = readState sd acc f := by
+  unfold decV at hdec
+  simp only [hres] at hdec
+  split at hdec
+  all_goals (try (rename_i heq; cases heq; done))
+  all_goals (try (cases hdec; done))
+  rename_i nm' name r0 heq
+  cases heq
+  simp only [hsd] at hdec
+  split at hdec
+  · rename_i fs r' _
+    split at hdec
+    · cases hdec
+    · split at hdec
+      · cases hdec
+      · cases hdec
+        exact ⟨fs, _, rfl, fun f hf => lookup_normFields sd fs hnd f hf⟩
+  · cases hdec
+  · cases hdec
+  · cases hdec
 
 /-- A union with no field or with two or more fields set is refused by `Write`. -/
 theorem c02_union_write_exactly_one (d : Defs) (n : Nat) (t : Ty) (nm : String) (sd : StructDef)
     (fs : List (Int × Val)) (hres : resolve d t = .struct nm) (hsd : lookupStruct d nm = some sd)
-    (hu : sd.kind = .union) (hbad : (sd.fields.filter fun f => (lookupVal fs f.id).isSome).length ≠ 1) :
+    (hu : sd.kind = .union) (hbad : (sd.fields.filter (isSetIn sd fs)).length ≠ 1) :
     encV d (n + 1) t (.struct fs) = .err .invalidData := by
   unfold encV
   simp only [hres, hsd]
   rw [if_pos ⟨hu, hbad⟩]
 
 /-- Whatever the stream, when `Read` of a struct-like succeeds every required field has been
-read and a union holds exactly one field — i.e. a stream in which a required field is missing
-(or a union's field count is not one) is rejected. -/
+read and a union holds exactly one set field (`acc` = the fields that arrived; set = arrived and,
+for a non-pointer field with a default, different from it) — i.e. a stream in which a required
+field is missing (or a union's field count is not one) is rejected. -/
 theorem c02_read_complete (d : Defs) (n : Nat) (t : Ty) (nm : String) (sd : StructDef)
     (es r : List Event) (v : Val) (hres : resolve d t = .struct nm) (hsd : lookupStruct d nm = some sd)
     (hdec : decV d (n + 1) t es = .ok (v, r)) :
     ∃ fs, v = .struct (normFields sd fs) ∧
       (∀ f ∈ sd.fields, f.req = .required → sd.kind ≠ .union → (lookupVal fs f.id).isSome) ∧
-      (sd.kind = .union → (sd.fields.filter fun f => (lookupVal fs f.id).isSome).length = 1) := by
+      (sd.kind = .union → (sd.fields.filter (isSetIn sd fs)).length = 1) := by
   unfold decV at hdec
   simp only [hres] at hdec
   split at hdec
@@ -130,7 +273,7 @@ theorem c02_read_complete (d : Defs) (n : Nat) (t : Ty) (nm : String) (sd : Stru
           | none => simp [hl] at this
           | some x => rfl
         · intro hk
-          cases Nat.decEq (sd.fields.filter fun f => (lookupVal fs f.id).isSome).length 1 with
+          cases Nat.decEq (sd.fields.filter (isSetIn sd fs)).length 1 with
           | isTrue h => exact h
           | isFalse h => exact absurd ⟨hk, h⟩ hun
   · cases hdec
@@ -155,23 +298,55 @@ theorem c02_wire_type_of_resolved (d : Defs) (t t' : Ty) (h : resolve d t = reso
     wireOf d t = wireOf d t' := by
   unfold wireOf; rw [h]
 
-/-! Non-vacuity: a two-struct program with a typedef chain, an enum, an optional field and nested
-containers; a well-typed value; the emitted writer succeeds on it (so `c02_roundtrip` applies). -/
+/-! Non-vacuity: a program with a typedef chain, an enum, optional fields, nested containers and
+DEFAULTS (`Inner.n` optional `= 5`, `Inner.k` default requiredness `= 7`, `Outer.c` optional enum
+`= 5`; `InnerV1` is an older version of `Inner` without `n` and `k`); a well-typed value; the emitted
+writer succeeds on it (so `c02_roundtrip` applies). -/
 def exDefs : Defs :=
   { typedefs := [("m/Id", .i64), ("m/Ids", .list (.typedef "m/Id"))],
     enums := [("m/Color", [1, 5, 6])],
-    structs := [⟨.struct, "m/Inner", "Inner", [⟨1, .required, "name", .string⟩, ⟨2, .optional, "n", .i32⟩]⟩,
-                ⟨.struct, "m/Outer", "Outer", [⟨1, .required, "ids", .typedef "m/Ids"⟩,
-                   ⟨3, .default, "m", .map .string (.list (.struct "m/Inner"))⟩, ⟨8, .optional, "c", .enum "m/Color"⟩]⟩] }
+    structs := [⟨.struct, "m/Inner", "Inner", [⟨1, .required, "name", .string, none⟩, ⟨2, .optional, "n", .i32, some (.int 5)⟩,
+                   ⟨3, .default, "k", .i32, some (.int 7)⟩]⟩,
+                ⟨.struct, "m/InnerV1", "Inner", [⟨1, .required, "name", .string, none⟩]⟩,
+                ⟨.struct, "m/Outer", "Outer", [⟨1, .required, "ids", .typedef "m/Ids", none⟩,
+                   ⟨3, .default, "m", .map .string (.list (.struct "m/Inner")), none⟩,
+                   ⟨8, .optional, "c", .enum "m/Color", some (.int 5)⟩]⟩] }
 
 def exVal : Val :=
-  .struct [(1, .list [.int 7, .int (-1)]), (3, .map [(.bytes [107], .list [.struct [(1, .bytes [97])]])])]
+  .struct [(1, .list [.int 7, .int (-1)]), (3, .map [(.bytes [107], .list [.struct [(1, .bytes [97]), (2, .int 6), (3, .int 9)]])])]
 
-example : (encV exDefs 8 (.struct "m/Outer") exVal).isOk = true := by decide
+example : (encV exDefs 8 (.struct "m/Outer") exVal).isOk = true := by decide +kernel
 
 example : WT exDefs 8 (.struct "m/Outer") exVal := by
-  simp [WT, exDefs, exVal, resolve, resolveN, lookupTypedef, lookupStruct, normFields, lookupVal]
+  simp [WT, exDefs, exVal, resolve, resolveN, lookupTypedef, lookupStruct, normFields, readState, isSetVal, cmpDflt,
+    Val.scalar, Val.beq, lookupVal]
 
+/-- `Inner.n = 5` (its default): `IsSetN()` is false and the field is not written — the same calls as
+for the value that does not list it; `n = 6` is written. -/
+example : encV exDefs 8 (.struct "m/Inner") (.struct [(1, .bytes [97]), (2, .int 5), (3, .int 9)])
+    = encV exDefs 8 (.struct "m/Inner") (.struct [(1, .bytes [97]), (3, .int 9)]) := by decide +kernel
+
+example : encV exDefs 8 (.struct "m/Inner") (.struct [(1, .bytes [97]), (2, .int 6), (3, .int 9)])
+    = .ok [.sb "Inner", .fb "name" 11 1, .str false [97], .fe, .fb "n" 8 2, .i32 6, .fe, .fb "k" 8 3, .i32 9, .fe, .fs, .se] := by
+  decide +kernel
+
+/-- `c02_default_reproduced` applies (writer `InnerV1`, reader `Inner`): the stream omits `n` and `k`;
+the reader leaves `k = 7` (listed) and `n` unset (the Go field holds 5). Also inside a list inside a
+map inside `Outer`: the nested read is the same code. -/
+example : ∃ es, encV exDefs 8 (.struct "m/InnerV1") (.struct [(1, .bytes [97])]) = .ok es ∧
+    WT exDefs 8 (.struct "m/InnerV1") (.struct [(1, .bytes [97])]) ∧
+    decV exDefs 8 (.struct "m/Inner") es = .ok (.struct [(1, .bytes [97]), (3, .int 7)], []) := by
+  refine ⟨_, rfl, ?_, ?_⟩
+  · simp [WT, exDefs, resolve, resolveN, lookupStruct, normFields, readState, isSetVal, cmpDflt, lookupVal]
+  · decide +kernel
+
+example : decV exDefs 8 (.struct "m/Outer")
+    [.sb "Outer", .fb "ids" 15 1, .lb 10 0, .le, .fe,
+      .fb "m" 13 3, .mb 11 15 1, .str false [107], .lb 12 1, .sb "Inner", .fb "name" 11 1, .str false [97], .fe,
+        .fb "n" 8 2, .i32 5, .fe, .fs, .se, .le, .me, .fe,
+      .fb "c" 8 8, .i32 5, .fe, .fs, .se]
+    = .ok (.struct [(1, .list []), (3, .map [(.bytes [107], .list [.struct [(1, .bytes [97]), (3, .int 7)]])])], []) := by
+  decide +kernel
 
 /-! ## Down to the bytes: the binary and the compact protocol
 
@@ -334,21 +509,27 @@ theorem c02_compact_roundtrip_values (d : Defs) (n : Nat) (t : Ty) (v : Val)
 for a value with bool fields, an id gap > 15, a descending id, an i64 extreme and an empty map. -/
 def exDefs2 : Defs :=
   { typedefs := [], enums := [],
-    structs := [⟨.struct, "m/W", "W", [⟨1, .default, "a", .bool⟩, ⟨17, .default, "b", .bool⟩, ⟨40, .default, "s", .string⟩,
-                   ⟨39, .optional, "l", .i64⟩, ⟨300, .optional, "m", .map .string (.list .i16)⟩, ⟨301, .optional, "bs", .list .bool⟩]⟩] }
+    structs := [⟨.struct, "m/W", "W", [⟨1, .default, "a", .bool, none⟩, ⟨17, .default, "b", .bool, none⟩, ⟨40, .default, "s", .string, none⟩,
+                   ⟨39, .optional, "l", .i64, none⟩, ⟨300, .optional, "m", .map .string (.list .i16), none⟩, ⟨301, .optional, "bs", .list .bool, none⟩]⟩] }
 
 def exVal2 : Val :=
   .struct [(1, .bool true), (17, .bool false), (40, .bytes [104, 105]), (39, .int (-9223372036854775808)),
            (300, .map []), (301, .list [.bool true, .bool false])]
 
+def exEvents : List Event :=
+  [.sb "Outer", .fb "ids" 15 1, .lb 10 2, .i64 7, .i64 (-1), .le, .fe,
+   .fb "m" 13 3, .mb 11 15 1, .str false [107], .lb 12 1,
+     .sb "Inner", .fb "name" 11 1, .str false [97], .fe, .fb "n" 8 2, .i32 6, .fe, .fb "k" 8 3, .i32 9, .fe, .fs, .se,
+   .le, .me, .fe, .fs, .se]
+
 example : ∃ es, encV exDefs 8 (.struct "m/Outer") exVal = .ok es ∧ (∀ e ∈ es, BinFits e) ∧ CmpOK es ∧ cmpBalanced 0 es = true := by
-  refine ⟨_, rfl, ?_, ?_, ?_⟩ <;> decide
+  refine ⟨exEvents, by decide +kernel, ?_, ?_, ?_⟩ <;> decide
 
 example : ∃ es, encV exDefs2 8 (.struct "m/W") exVal2 = .ok es ∧ (∀ e ∈ es, BinFits e) ∧ CmpOK es ∧ cmpBalanced 0 es = true := by
   refine ⟨_, rfl, ?_, ?_, ?_⟩ <;> decide
 
 example : WT exDefs2 8 (.struct "m/W") exVal2 := by
-  simp [WT, exDefs2, exVal2, resolve, resolveN, lookupStruct, normFields, lookupVal]
+  simp [WT, exDefs2, exVal2, resolve, resolveN, lookupStruct, normFields, readState, isSetVal, cmpDflt, lookupVal]
 
 example : Fits exDefs2 8 (.struct "m/W") exVal2 := by
   simp [Fits, exDefs2, exVal2, resolve, resolveN, lookupStruct, lookupVal, maxMessageSize]
